@@ -312,7 +312,7 @@ PROPS['C02'] = dict(
     technique='contract-based: Verus (overflow/bounds/unwrap/assert sites as obligations) + Kani default checks on the harnesses of C03 C05 C06 C09 C10 C11 C17',
     design_ref='DESIGN.md section 4, C02',
     explanation='union of panic-freedom obligations of every function under contract; the quick tier leaves out only the harnesses that are thorough-tier in their own property and the full-domain key table harness',
-    verus=[dict(unit='dynmacro', only=DYN_FUNCS), dict(unit='switch'), dict(unit='oneshot'), dict(unit='waiting'), dict(unit='ticks'), dict(unit='repeat')],
+    verus=[dict(unit='dynmacro', only=DYN_FUNCS), dict(unit='switch'), dict(unit='oneshot'), dict(unit='waiting'), dict(unit='ticks'), dict(unit='repeat'), dict(unit='seqs')],
     kani=_c02_kani(),
     assumptions=[
         'NOT covered: Layout::{tick, do_action, event} outside the fragments named above, resolve_coord, process_sequences, ChordsV2::process_presses, every Kanata method except handle_repeat_actual and handle_scrolling (handle_move_mouse uses f64; tick_sequence_state returns a &mut from a getter), the parser',
@@ -356,6 +356,36 @@ PROPS['C14'] = dict(
         'add_kc_output is an assumed callee (external_body): inserts (position, key), never removes',
         'KeyCode -> OsCode (a transmute) is assumed to preserve the number here; that is proved for every code by the Kani harnesses of C11',
         'CustomAction is represented by the two variants the function names (Unmodded, Unshifted) plus one catch-all variant (rewrite R7e); all other variants are treated uniformly by the function (`_ => {}`)',
+    ],
+    trusted_base=['rustc', 'Verus 0.2026.09.13 / Z3', 'extractor lib/rustcut.py + lib/verusgen.py (rewrites logged in rewrites_applied)'],
+)
+
+
+PROPS['C08'] = dict(
+    level='proof',
+    level_text=('PARTIAL: unbounded deductive proofs (Verus/Z3) on text cut from keyberon/src/layout.rs each run, of the macro STEPPER and its activation / cancellation: '
+                '(1) the main loop of Layout::process_sequences: in one tick every running macro takes at most ONE step - a pending delay counts down, else a tap is finished, '
+                'else exactly one event is taken from the FRONT of its list - Press puts a fake key down, Release takes it up, Tap does the former now and the latter on the '
+                'macro\'s next tick, Delay{d} blocks d ticks including this one, Custom is queued; exhausted macros are dropped, the others keep their order; '
+                '(2) the Sequence / RepeatableSequence arms of do_action start a fresh cursor at the start of exactly the action\'s event list behind the running ones (ring of 4: a fifth evicts the oldest); '
+                '(3) the CancelSequences arm leaves no macro running and NO fake key press in the state table, and touches no other state. '
+                'Not decided: the parser\'s expansion of a written macro into events (so "precisely the key list it spells out" is decided from the event list on, not from the configuration text), '
+                'release-cancel / cancel-on-press in Kanata, the restart of a repeating macro, and what the OS sees (states -> keycodes -> Kanata output).'),
+    level_note=('Trusted: rustc, Verus+Z3, extractor (fragments: the loop of process_sequences without the trailing repeating-macro block; three arms of do_action). Assumed stubs: ArrayDeque(Wrapping) '
+                '{len,pop_front,push_back,clear}, heapless::Vec {push (Err when full), retain (predicate asked once per element), clone}, History::push_front and OneShotState::handle_press/handle_release (logged). '
+                'Rewrites: R10, R12 (closure annotation generated from the closure body), R20 (`if let [e, tail @ ..] = xs` -> `xs.split_first()`), R21 (loop-head temporary bound to a local).'),
+    technique='contract-based deductive verification (Verus): loop invariant over an abstract cursor view (step_v / step_world / run_out / run_world), ghost logs for the calls into History and OneShotState',
+    design_ref='DESIGN.md section 9.1b (C08)',
+    explanation=('Unit seqs. process_sequences_loop: views(active_sequences\') == run_out(views(active_sequences), n) and world\' == run_world(views(active_sequences), n, world) where world = (state table, key history log, one-shot log); '
+                 'State::seq_release against its spec; do_action_sequence / do_action_repeatable_sequence: views\' == views.push(fresh(events)) (or drop_first().push when 4 are running), state table unchanged / + the RepeatingSequence marker; '
+                 'do_action_cancel_sequences: active_sequences empty, forall states: not FakeKey, filter(nonfake) unchanged.'),
+    verus=[dict(unit='seqs')],
+    kani=[],
+    assumptions=[
+        'NOT decided: the parser-side expansion of macro text into SequenceEvents (parse_macro..: held modifier groups, nested lists), Kanata-side cancellation (release-cancel, macro_on_press_cancel_duration), the trailing block of process_sequences that restarts a repeating macro while its trigger state exists (`.iter().rev().find(closure)`), process_sequence_custom, and the path from the state table to OS output',
+        'a macro whose event list does not release what it pressed leaves that fake key down when it ends: "always end with keys released" is a property of the parser\'s expansion (not under contract) except for cancellation, which is proved to release every fake key',
+        'the state table holds 64 entries: a Press / Custom beyond that is silently dropped by the code (`let _ = self.states.push(..)`); the contract says so (spec fn pushed)',
+        'assumed container contracts as listed in level_note; History / OneShotState are opaque with ghost logs (what they do with a call is C10 / C06)',
     ],
     trusted_base=['rustc', 'Verus 0.2026.09.13 / Z3', 'extractor lib/rustcut.py + lib/verusgen.py (rewrites logged in rewrites_applied)'],
 )
